@@ -78,7 +78,8 @@ func (dec *Decoder) readStringAsBytes(utf16Length int) (data []byte, safe bool) 
 			}
 		}
 		remains := length - off
-		if remains > 0 {
+		if remains > 0 || (remains == 0 && utf16Length <= 0) {
+			// the string ends inside (or exactly at the end of) the buffered data
 			dec.head += off
 			if data == nil {
 				return buf[:off], false
